@@ -1345,6 +1345,10 @@ def instances(tier: str) -> List[Tuple[str, tuple, dict, Callable[..., Callable[
           ("aquarium", (2, 3, [[(0, 0), (0, 1), (0, 2)], [(1, 0), (1, 1), (1, 2)]], [-1, -1], [-1, 0, -1]), {}, rule_aquarium),
           ("aquarium", (2, 2, [[(0, 0), (1, 0)], [(0, 1), (1, 1)]], [-1, -1], [-1, 2]), {}, rule_aquarium)]
     # the cells of a tank may be listed in any order (a generator merge appends blocks): bottom-up and mixed listings
+    # a clue at an index beyond the shorter side (the last column of a wide board, the last row of a tall one) that alone decides
+    # something: the row loop and the column loop have different lengths
+    I += [("aquarium", (2, 3, [[(0, 0)], [(0, 1)], [(0, 2), (1, 2)], [(1, 0)], [(1, 1)]], [-1, -1], [-1, -1, 1]), {}, rule_aquarium),
+          ("aquarium", (3, 2, [[(0, 0)], [(0, 1)], [(1, 0)], [(1, 1)], [(2, 0), (2, 1)]], [-1, -1, 0], [-1, -1]), {}, rule_aquarium)]
     I += [("aquarium", (3, 1, [[(2, 0), (1, 0), (0, 0)]], [-1, -1, -1], [-1]), {}, rule_aquarium),
           ("aquarium", (2, 2, [[(1, 0), (0, 0)], [(1, 1), (0, 1)]], [2, 0], [-1, -1]), {}, rule_aquarium),
           ("aquarium", (3, 2, [[(2, 1), (0, 0), (1, 0), (2, 0)], [(1, 1), (0, 1)]], [-1, -1, -1], [-1, -1]), {}, rule_aquarium)]
